@@ -4,7 +4,7 @@ import json
 import os
 
 
-def make_replay(prop, failure, path, scen_fail=None):
+def make_replay(prop, failure, path, scen_fail=None, kani=None):
     """write the replay file; return the VIOLATION-line suffix ('' if a failing input was found)"""
     doc = dict(property=prop,
                failed_obligation=dict(unit=failure.get("unit"), function=failure.get("fn"), kind=failure.get("kind"),
@@ -25,6 +25,15 @@ def make_replay(prop, failure, path, scen_fail=None):
         doc["note"] = ("failing input: the scenario below (program + signal list + driver behaviour) was replayed on the real crate; "
                        "its observed outcome differs from what the property statement prescribes")
         suffix = ""
+    if kani:
+        # a concrete counterexample from the Kani twin of the failing leaf function, replayed on the real crate
+        doc["kani_counterexample"] = kani
+        if kani.get("replay", {}).get("confirmed_on_real_code"):
+            if doc["failing_input"] is None:
+                doc["failing_input"] = dict(kind="kani counterexample replayed through the public API (debug+release)", **kani)
+            doc["note"] = ("failing input: Kani's counterexample for the leaf function, written as a test program and run on the real crate; "
+                           "the observed value differs from the reference value computed from the statement")
+            suffix = ""
     os.makedirs(os.path.dirname(path), exist_ok=True)
     with open(path, "w") as f:
         json.dump(doc, f, indent=1)
